@@ -367,3 +367,91 @@ Corollary expand_labels_exist ss :
   forall i e l, nth_error (expand ss) i = Some e -> In l (elem_labels e) ->
                 exists k, k < List.length (expand ss) /\ nth_error (expand ss) k = Some (ELabel l).
 Proof. apply labels_okb_sound. apply expand_static_closed. Qed.
+
+(* ---- loop exits: in a source where break/continue occur only inside loops, every expanded
+        Break / Continue carries the label of its loop ---- *)
+Definition is_some (cb : cb_t) : bool := match cb with Some _ => true | None => false end.
+
+Lemma wf_if inl th el : wf_loops inl (SIf th el) = wf_list inl th && wf_list inl el.
+Proof. reflexivity. Qed.
+Lemma wf_while inl b : wf_loops inl (SWhile b) = wf_list true b.
+Proof. reflexivity. Qed.
+Lemma wf_when inl cases els :
+  wf_loops inl (SWhen cases els) =
+  wf_cases inl cases && match els with None => true | Some el => wf_list inl el end.
+Proof. reflexivity. Qed.
+
+Lemma wf_cases_cons inl c r : wf_cases inl (c :: r) = wf_list inl c && wf_cases inl r.
+Proof. reflexivity. Qed.
+
+Lemma lx_app a b : loop_exits_okb (a ++ b) = loop_exits_okb a && loop_exits_okb b.
+Proof. apply forallb_app. Qed.
+
+Definition Plx (s : stmt) : Prop :=
+  forall cb p, wf_loops (is_some cb) s = true -> loop_exits_okb (xstmt cb p s) = true.
+
+Lemma xlist_lx ss : Forall Plx ss ->
+  forall cb p i, wf_list (is_some cb) ss = true -> loop_exits_okb (xlist cb p i ss) = true.
+Proof.
+  induction 1 as [|s r Hs Hr IH]; intros cb p i Hw; [reflexivity|].
+  cbn [xlist wf_list] in *. apply andb_true_iff in Hw. destruct Hw as [H1 H2].
+  rewrite lx_app, (Hs cb _ H1), (IH cb p (S i) H2). reflexivity.
+Qed.
+
+Lemma group_body_lx en gs :
+  loop_exits_okb (flat_map (fun g => [ELabel g; EBlock; EGoto en false]) gs) = true.
+Proof. induction gs as [|g r IH]; [reflexivity|]. cbn [flat_map]. rewrite lx_app, IH. reflexivity. Qed.
+
+Lemma xcases_lx cb p cs : Forall (Forall Plx) cs ->
+  forall i, wf_cases (is_some cb) cs = true -> loop_exits_okb (xcases cb p i cs) = true.
+Proof.
+  induction 1 as [|c r Hc Hr IH]; intros i Hw; [reflexivity|].
+  rewrite xcases_cons. rewrite wf_cases_cons in Hw. apply andb_true_iff in Hw. destruct Hw as [H1 H2].
+  rewrite lx_app, (IH (S i) H2), andb_true_r. unfold when_case. cbv zeta.
+  rewrite !lx_app, (xlist_lx c Hc cb _ 0 H1). reflexivity.
+Qed.
+
+Lemma xstmt_lx : forall s, Plx s.
+Proof.
+  apply stmt_ind'; unfold Plx.
+  - reflexivity.
+  - reflexivity.
+  - intros [[a b]|] p H; [reflexivity|discriminate H].
+  - intros [[a b]|] p H; [reflexivity|discriminate H].
+  - reflexivity.
+  - reflexivity.
+  - intros th el Hth Hel cb p Hw. rewrite wf_if in Hw. apply andb_true_iff in Hw. destruct Hw as [H1 H2].
+    rewrite xstmt_if. pose proof (xlist_lx th Hth cb (p ^^ "t") 0 H1) as HT.
+    destruct el as [|e0 el0].
+    + cbn [loop_exits_okb forallb]. fold (loop_exits_okb (xlist cb (p ^^ "t") 0 th ++ [ELabel (p ^^ "D")])).
+      rewrite lx_app, HT. reflexivity.
+    + pose proof (xlist_lx (e0 :: el0) Hel cb (p ^^ "e") 0 H2) as HE.
+      cbn [loop_exits_okb forallb].
+      fold (loop_exits_okb (xlist cb (p ^^ "t") 0 th ++ [EGoto (p ^^ "D") false; ELabel (p ^^ "E")]
+                              ++ xlist cb (p ^^ "e") 0 (e0 :: el0) ++ [ELabel (p ^^ "D")])).
+      rewrite !lx_app, HT, HE. reflexivity.
+  - intros body Hb cb p Hw. rewrite wf_while in Hw. rewrite xstmt_while.
+    pose proof (xlist_lx body Hb (Some (p ^^ "B", p ^^ "D")) (p ^^ "b") 0 Hw) as HB.
+    cbn [loop_exits_okb forallb].
+    fold (loop_exits_okb (xlist (Some (p ^^ "B", p ^^ "D")) (p ^^ "b") 0 body ++ [EGoto (p ^^ "B") false; ELabel (p ^^ "D")])).
+    rewrite lx_app, HB. reflexivity.
+  - intros n cb p _. cbn [xstmt]. unfold or_group. cbv zeta.
+    rewrite !lx_app, group_body_lx. reflexivity.
+  - intros n cb p _. cbn [xstmt]. unfold and_group. cbv zeta.
+    rewrite !lx_app, group_body_lx. reflexivity.
+  - intros cases els Hc He cb p Hw. rewrite wf_when in Hw. apply andb_true_iff in Hw. destruct Hw as [H1 H2].
+    rewrite xstmt_when. cbn [loop_exits_okb forallb].
+    match goal with |- context [forallb ?f (xcases ?a ?b ?c ?d ++ ?t)] =>
+      change (forallb f (xcases a b c d ++ t)) with (loop_exits_okb (xcases a b c d ++ t)) end.
+    rewrite lx_app, (xcases_lx cb p cases Hc 0 H1). unfold when_tail.
+    destruct els as [el|].
+    + rewrite !lx_app, (xlist_lx el (He el eq_refl) cb _ 0 H2). reflexivity.
+    + reflexivity.
+Qed.
+
+Theorem expand_loop_exits ss : wf_list false ss = true -> loop_exits_okb (expand ss) = true.
+Proof.
+  intros Hw. unfold expand. cbn [loop_exits_okb forallb].
+  apply (xlist_lx ss) with (cb := None); [|exact Hw].
+  apply Forall_forall. intros s _. apply xstmt_lx.
+Qed.
